@@ -176,6 +176,46 @@ def is_list_prop(prop) -> bool:
     return isinstance(prop, (xs._ElementListProperty, xs._AttributeListBase, xs.ExtensionNodeProperty))  # noqa: SLF001
 
 
+def _is_mutable_elem(e) -> bool:
+    return isinstance(e, etree._Element) or hasattr(e, 'sorted_container_properties')  # noqa: SLF001
+
+
+def scribble(elem, k: int):
+    """Nested attribute write into a list element (only somebody who shares the element object can see it later)."""
+    if isinstance(elem, etree._Element):  # noqa: SLF001
+        elem.set('c12w', str(k))
+    elif hasattr(elem, 'sorted_container_properties'):
+        for name, prop in elem.sorted_container_properties():
+            val = _scalar_for(prop, k)
+            if val is not None:
+                try:
+                    setattr(elem, name, val)
+                except Exception:  # noqa: BLE001, S110
+                    pass
+
+
+def replace_content(lst: list, elems: list, k: int):
+    """In-place write into a list member: write into the present elements, then give the list its new content."""
+    for e in lst:
+        scribble(e, k)
+    lst[:] = elems
+
+
+def mutable_ids(val, out: set, depth: int = 0) -> set:
+    """Identities of the mutable objects a member value consists of (the object, its lists, their elements)."""
+    if val is None:
+        return out
+    if isinstance(val, list):
+        out.add(id(val))
+        out.update(id(e) for e in val if _is_mutable_elem(e))
+    elif hasattr(val, 'sorted_container_properties'):
+        out.add(id(val))
+        if depth < 2:
+            for _, prop in val.sorted_container_properties():
+                mutable_ids(prop.get_actual_value(val), out, depth + 1)
+    return out
+
+
 def write_nested(nested, k: int, depth: int = 0) -> int:
     """Write abstract value k into a nested data object IN PLACE; returns the number of places written.
 
@@ -193,13 +233,60 @@ def write_nested(nested, k: int, depth: int = 0) -> int:
             elems = list_elements(prop, k)
             lst = getattr(nested, name)
             if elems is not None and lst is not None:
-                lst[:] = elems
+                replace_content(lst, elems, k)
                 n += 1
             continue
         cur = getattr(nested, name)
         if depth < 1 and cur is not None and hasattr(cur, 'sorted_container_properties'):
             n += write_nested(cur, k, depth + 1)
     return n
+
+
+# --------------------------------------------------------------------------- documents for parse-only classes
+class FixtureSource:
+    """XML for the msg_types classes the library can read but not write (Mds, Vmd, Channel, MdDescription,
+    GetMdDescriptionResponse): cut out of fixtures/two_mds.xml, member children reduced to the first k."""
+
+    PM = 'http://standards.ieee.org/downloads/11073/11073-10207-2017/participant'
+    MSG = 'http://standards.ieee.org/downloads/11073/11073-10207-2017/message'
+    BIG = ('Vmd', 'Channel', 'Metric', 'Sco', 'AlertSystem', 'SystemContext', 'Clock', 'Battery')
+
+    def __init__(self):
+        from .mdibharness import FIXTURE_TWO
+        root = etree.parse(FIXTURE_TWO).getroot()
+        pm = lambda n: f'{{{self.PM}}}{n}'  # noqa: E731
+        mdd = next(root.iter(pm('MdDescription')))
+        resp = etree.Element(f'{{{self.MSG}}}GetMdDescriptionResponse', nsmap=root.nsmap)
+        inner = etree.SubElement(resp, f'{{{self.MSG}}}MdDescription')
+        for child in mdd:
+            inner.append(copy.deepcopy(child))
+        self.elements = {'Mds': next(root.iter(pm('Mds'))), 'Vmd': next(root.iter(pm('Vmd'))),
+                         'Channel': next(root.iter(pm('Channel'))), 'MdDescription': mdd,
+                         'GetMdDescriptionResponse': resp}
+
+    def handles(self, cls) -> bool:
+        return cls.__module__.endswith('msg_types') and cls.__name__ in self.elements
+
+    def absent(self, member):
+        return copy.deepcopy(self.elements[member.cls.__name__])
+
+    def present(self, member, k: int):
+        node = copy.deepcopy(self.elements[member.cls.__name__])
+        tag = member.prop._sub_element_name  # noqa: SLF001
+        holder = node
+        if member.kind == 'obj':      # the member is a nested object: its own list is reduced
+            holder = node.find(tag)
+            tag = f'{{{self.PM}}}Mds'
+        kids = holder.findall(tag)
+        if len(kids) < k:
+            raise MachineryError(f'{member.ident}: fixture has only {len(kids)} {tag}')
+        for extra in kids[k:]:
+            holder.remove(extra)
+        for kid in kids[:k]:          # keep the documents small
+            for sub in list(kid):
+                if isinstance(sub.tag, str) and etree.QName(sub).localname in self.BIG:
+                    kid.remove(sub)
+        return node
 
 
 # --------------------------------------------------------------------------- one (class, member) pair
@@ -247,7 +334,7 @@ class Member:
             return False
         k = VALS.index(v) + 1
         if self.kind == 'list':
-            nested[:] = list_elements(self.prop, k)
+            replace_content(nested, list_elements(self.prop, k), k)
             return True
         return write_nested(nested, k) > 0
 
@@ -328,7 +415,7 @@ class Member:
             node = self.source.absent(self) if self.source else serialise(self.new())
             self._strip_member(node)
             self.xml_absent = etree.tostring(node)
-            absent = self._privatise(self.parse_absent())
+            absent = self.parse_absent()     # (only read here)
             if getattr(absent, self.name) is not None and self.token(absent).startswith('X'):
                 self._learn(absent, 'A0')    # absent member is read as a value of its own (judged leniently)
             origins.append(self.parse_absent)
@@ -349,7 +436,7 @@ class Member:
                         raise MachineryError(f'{self.ident}: no writable place in the nested {self.default_type}')
                     self.xml_present[v] = etree.tostring(serialise(inst))
             for v in VALS:
-                inst = self._privatise(self.parse_present(v))
+                inst = self.parse_present(v)     # (only read here)
                 if self.token(inst) in ('D0', 'A0', 'None'):
                     raise ValueError('the XML that carries the member is read back as if the member were absent')
                 self._learn(inst, v)
@@ -400,6 +487,7 @@ def discover() -> list[Member]:
     import enum
     out = []
     classes = set()
+    source = FixtureSource()
     for mn in MODULES:
         mod = importlib.import_module(mn)
         for _, cls in inspect.getmembers(mod, inspect.isclass):
@@ -418,4 +506,6 @@ def discover() -> list[Member]:
                                                                        enum.Enum, etree.QName, tuple, frozenset))
                     if obj_default or is_list_prop(prop):
                         out.append(Member(mn, cls, name, prop, klass.__name__))
+                        if source.handles(cls):
+                            out[-1].source = source
     return out
